@@ -49,13 +49,14 @@ type Plan struct {
 	HelperPM []uint8 // PMax advertised by each helper (nack expected at >= 4)
 	SubjPMax uint8   // TCP fallback at >= 3
 	NoTCP    bool
+	PerNode  bool `json:",omitempty"` // NoTCP through DisableTcpPingsForNode(subject) instead of the global switch
 	AwMax    int
 	Probes   []Probe
 }
 
 func genPlan(t *rapid.T) Plan {
 	p := Plan{Seed: rapid.Uint64Range(1, 1<<40).Draw(t, "seed"), Helpers: rapid.IntRange(0, 3).Draw(t, "helpers"),
-		SubjPMax: uint8(rapid.SampledFrom([]int{2, 3, 5, 5}).Draw(t, "spmax")), NoTCP: rapid.IntRange(0, 3).Draw(t, "notcp") == 0,
+		SubjPMax: uint8(rapid.SampledFrom([]int{2, 3, 5, 5}).Draw(t, "spmax")), NoTCP: rapid.IntRange(0, 3).Draw(t, "notcp") == 0, PerNode: rapid.Bool().Draw(t, "pernode"),
 		AwMax: rapid.SampledFrom([]int{2, 4, 8}).Draw(t, "awmax")}
 	for i := 0; i < p.Helpers; i++ {
 		p.HelperPM = append(p.HelperPM, uint8(rapid.SampledFrom([]int{2, 3, 4, 5}).Draw(t, "hpm")))
@@ -105,7 +106,12 @@ func run(pl Plan) (res vfx.Result) {
 	}
 	fail := func(f string, a ...any) vfx.Result { res.Err = fmt.Errorf(f, a...); return done() }
 	conf := puppet.NodeConf{Name: "n0", IP: "10.0.0.1", Port: 7946, IndirectChecks: pl.Helpers, ProbeIntervalMs: 1000, ProbeTimeoutMs: 300,
-		DisableTcpPings: pl.NoTCP, AwarenessMax: pl.AwMax, SuspicionMult: 8, SuspicionMaxMult: 8, GossipIntervalMs: 200, TCPTimeoutMs: 2000}
+		DisableTcpPings: pl.NoTCP && !pl.PerNode, AwarenessMax: pl.AwMax, SuspicionMult: 8, SuspicionMaxMult: 8, GossipIntervalMs: 200, TCPTimeoutMs: 2000}
+	if pl.NoTCP && pl.PerNode {
+		conf.NoTcpPingsFor = []string{"x"}
+	} else if pl.PerNode {
+		conf.NoTcpPingsFor = []string{"somebody-else"} // must not switch the fallback off for the subject
+	}
 	p, err := puppet.New(pl.Seed, conf)
 	if err != nil {
 		return fail("create: %v", err)
